@@ -1212,6 +1212,12 @@ def queue_call(it, obj, meth, args, kwargs):
                 raise Raised('Full')
         else:
             c.prove('%s:no-block/put@%s' % (it.where(), it.callsite or 'site'), z3.Or(ms <= 0, qs < ms))
+            if any(o in it.where() for o in getattr(it.w, 'shared_put_owners', ())):
+                # a queue that other threads fill as well: what full()/qsize() said a statement ago does not hold
+                # any more when the put runs, so a put that may wait cannot rest on such a test (rely: qsize is
+                # unstable under interference); only an unbounded queue never makes a blocking put wait
+                c.prove('%s:no-block/waiting-put-on-a-queue-other-threads-fill@%s' % (it.where(), it.callsite or 'site'),
+                        ms <= 0)
         c.hset(obj, 'qsize', qs + 1)
         c.hset(obj, 'unfinished', un + 1)
         return None
